@@ -127,6 +127,7 @@ func targets() []*target {
 		{pkg: slogPkg, recv: "LWs", fn: "Write", coq: "write_plain", file: "Delivery", strict: true, fallback: "GenRef.write_plain_ref",
 			comment: "(fold over the members; returns (n, err, trace, clock))",
 			tymap:   deliveryTypes("member"), effects: []string{"tr_", "k_"},
+			opaque:  map[string]string{"io.ErrShortWrite": "err_other", "io.EOF": "err_other", "os.ErrClosed": "err_other"},
 			calls: map[string]callSpec{
 				"LogWriter.Write": {res: "io_write wres k_", ev: "EvWrite (member_id %r)", tick: true},
 				"errors.Join":     {pure: "err_join %0 %1"},
